@@ -58,3 +58,17 @@ Theorem C14_kappa_positive :
   forall nsteps ar, rm_window p nsteps = true -> 0 < kappa_of (kappa_update p nsteps ar).
 Proof. intros p Hd nsteps ar Hw. now destruct (kappa_direction p Hd nsteps ar Hw) as (_ & _ & H). Qed.
 Print Assumptions C14_kappa_positive.
+
+(** The rejection loops of the bounded families: one draw is accepted with probability
+    acc = Phi((hi - y)/s) - Phi((lo - y)/s); the expected number of draws per jump is 1/acc
+    ([C02_rejection_series] with m = p), and it never decreases when the scale s grows - so along
+    any adaptation history the cost of a jump is bounded by the cost at the largest scale reached. *)
+From Epsie Require Import Dens_cont_proofs.
+Theorem C14_retry_mass_monotone :
+  forall (Phi : R -> R), (forall x y, x < y -> Phi x < Phi y) ->
+  forall lo hi y s1 s2 : R, 0 < s1 <= s2 -> lo <= y <= hi -> lo < hi ->
+  acc Phi lo hi s2 y <= acc Phi lo hi s1 y /\ / acc Phi lo hi s1 y <= / acc Phi lo hi s2 y.
+Proof.
+  intros Phi Hinc lo hi y s1 s2 Hs Hy Hw. split; [apply acc_antitone|apply expected_draws_monotone]; assumption.
+Qed.
+Print Assumptions C14_retry_mass_monotone.
